@@ -70,10 +70,10 @@ Definition dispatch (s : sexp) : sexp :=
   (* ---- model ---- *)
   if t =? 1 then        (* load_config src name *)
     of_load_obs (load_obs_of (load_config (sx_source (sx_arg 0 s)) (sx_str (sx_arg 1 s))))
-  else if t =? 2 then   (* cli refusers host src name *)
+  else if t =? 2 then   (* cli refusers denv src name *)
     of_run (cli (answers_of (sx_strs (sx_arg 0 s))) (sx_env (sx_arg 1 s))
                 (sx_source (sx_arg 2 s)) (sx_str (sx_arg 3 s)))
-  else if t =? 3 then   (* runner refusers host src names *)
+  else if t =? 3 then   (* runner refusers denv src names *)
     of_run (runner (answers_of (sx_strs (sx_arg 0 s))) (sx_env (sx_arg 1 s))
                    (sx_source (sx_arg 2 s)) (sx_strs (sx_arg 3 s)))
   else if t =? 4 then   (* default_env host *)
